@@ -38,7 +38,7 @@ from simkit.runner import digest
 ID = "C19"
 LEVEL = "exploration"
 TIERS = {
-    "quick": {"runs": 2500, "wall": 60, "run_timeout": 120, "shrink_s": 40, "trials": 6},
+    "quick": {"runs": 12000, "wall": 60, "run_timeout": 120, "shrink_s": 40, "trials": 6},
     "thorough": {"runs": 150000, "wall": 1000, "run_timeout": 240, "shrink_s": 120, "trials": 10},
 }
 RULE = ("case = seeded reference (1 annotator, 1..12 units with distinct segments, 1..4 categories) x magnitude x annotators (count or "
